@@ -70,6 +70,10 @@ pub struct TraceEntry {
     pub hash: u64,
     pub verdict: Verdict,
     pub now: u64,
+    /// Number of gates released before this event arrived (the actor ran, and
+    /// did whatever the event reports, before that point).
+    #[serde(default)]
+    pub arrived: usize,
 }
 
 #[derive(Clone, Debug, Default)]
@@ -131,6 +135,7 @@ struct Actor {
     is_main: bool,
     stream: UnixStream,
     pending: Option<Event>,
+    arrived: usize,
     status: Status,
     blocked_at: Option<u64>,
     nseq: usize,
@@ -361,6 +366,7 @@ pub fn run(
                     hash: ev.hash,
                     verdict,
                     now,
+                    arrived: a.arrived,
                 });
                 seq += 1;
                 a.nseq += 1;
@@ -384,9 +390,15 @@ pub fn run(
                 .filter(|a| a.status == Status::Parked && a.blocked_at.is_some())
                 .map(|a| format!("{} on {}", a.name, a.pending.as_ref().map(|e| e.path.clone()).unwrap_or_default()))
                 .collect();
-            let any_other_live = actors
-                .values()
-                .any(|a| matches!(a.status, Status::Running | Status::New));
+            // A main thread waiting for its workers is about to come back (block.end)
+            // once none of them is left; it only stays away while a worker is stuck.
+            let any_other_live = actors.values().any(|a| {
+                matches!(a.status, Status::Running | Status::New)
+                    || (a.status == Status::Waiting
+                        && !actors
+                            .values()
+                            .any(|b| b.proc_idx == a.proc_idx && !b.is_main && b.status != Status::Done))
+            });
             if !parked_blocked.is_empty() && !any_other_live {
                 // Every live actor waits for a lock nobody will release —
                 // unless a process is between its last gate and its exit.
@@ -436,6 +448,7 @@ pub fn run(
                         is_main,
                         stream,
                         pending: None,
+                        arrived: 0,
                         status: Status::New,
                         blocked_at: None,
                         nseq: 0,
@@ -455,6 +468,7 @@ pub fn run(
                         result.blocked.push((a.name.clone(), ev.path.clone()));
                     }
                     a.pending = Some(ev);
+                    a.arrived = seq;
                     a.status = Status::Parked;
                     if running == Some(conn) {
                         running = None;
